@@ -1,0 +1,62 @@
+//go:build verif
+
+package deploy
+
+import (
+	"github.com/nspcc-dev/neo-go/pkg/core/transaction"
+	"github.com/nspcc-dev/neo-go/pkg/rpcclient/actor"
+	"github.com/nspcc-dev/neo-go/pkg/util"
+)
+
+// This file only re-exports unexported pure helpers for the external
+// verification harness. It is compiled with the `verif` build tag only.
+
+// VerifSharedTxData mirrors sharedTransactionData.
+type VerifSharedTxData struct {
+	Sender          util.Uint160
+	ValidUntilBlock uint32
+	Nonce           uint32
+}
+
+func (x VerifSharedTxData) conv() sharedTransactionData {
+	return sharedTransactionData{sender: x.Sender, validUntilBlock: x.ValidUntilBlock, nonce: x.Nonce}
+}
+
+// VerifSharedTxDataLen is sharedTransactionDataLen.
+const VerifSharedTxDataLen = sharedTransactionDataLen
+
+// VerifDivideFundsEvenly is divideFundsEvenly.
+func VerifDivideFundsEvenly(fullAmount uint64, n int, f func(ind int, amount uint64)) {
+	divideFundsEvenly(fullAmount, n, f)
+}
+
+// VerifTransactionModifier is neoFSRuntimeTransactionModifier.
+func VerifTransactionModifier(getBlockchainHeight func() uint32) actor.TransactionCheckerModifier {
+	return neoFSRuntimeTransactionModifier(getBlockchainHeight)
+}
+
+// VerifSharedBytes is sharedTransactionData.bytes.
+func VerifSharedBytes(x VerifSharedTxData) []byte { return x.conv().bytes() }
+
+// VerifSharedEncode is sharedTransactionData.encodeToString.
+func VerifSharedEncode(x VerifSharedTxData) string { return x.conv().encodeToString() }
+
+// VerifSharedDecode is sharedTransactionData.decodeString.
+func VerifSharedDecode(s string) (VerifSharedTxData, error) {
+	var d sharedTransactionData
+	err := d.decodeString(s)
+	return VerifSharedTxData{Sender: d.sender, ValidUntilBlock: d.validUntilBlock, Nonce: d.nonce}, err
+}
+
+// VerifUnshiftChecksum is sharedTransactionData.unshiftChecksum.
+func VerifUnshiftChecksum(x VerifSharedTxData, data []byte) []byte { return x.conv().unshiftChecksum(data) }
+
+// VerifShiftChecksum is sharedTransactionData.shiftChecksum.
+func VerifShiftChecksum(x VerifSharedTxData, data []byte) (bool, []byte) {
+	return x.conv().shiftChecksum(data)
+}
+
+// VerifSharedTxDataMatches is sharedTxDataMatches.
+func VerifSharedTxDataMatches(tx *transaction.Transaction, x VerifSharedTxData) bool {
+	return sharedTxDataMatches(tx, x.conv())
+}
